@@ -91,6 +91,26 @@ theorem dropWhile_append_stop {f : Char → Bool} (t : List Char) {r : List Char
 theorem take_append_length_sub (a r : List Char) : (a ++ r).take ((a ++ r).length - r.length) = a := by
   simp
 
+/-! ### evaluation steps -/
+
+theorem andThen_of_ok {α β} {p : P α} {f : α → P β} {s a r} (h : p s = .ok a r) : andThen p f s = f a r := by
+  simp [andThen, h, PR.bind]
+theorem andThen_of_err {α β} {p : P α} {f : α → P β} {s} (h : p s = .err) : andThen p f s = .err := by
+  simp [andThen, h, PR.bind]
+theorem skip_of_ok {α β} {p : P α} {q : P β} {s a r} (h : p s = .ok a r) : skip p q s = q r := andThen_of_ok h
+theorem skip_of_err {α β} {p : P α} {q : P β} {s} (h : p s = .err) : skip p q s = .err := andThen_of_err h
+theorem pmap_of_ok {α β} {p : P α} {f : α → β} {s a r} (h : p s = .ok a r) : pmap f p s = .ok (f a) r := by
+  simp [pmap, h, PR.map, PR.bind]
+theorem pmap_of_err {α β} {p : P α} {f : α → β} {s} (h : p s = .err) : pmap f p s = .err := by
+  simp [pmap, h, PR.map, PR.bind]
+theorem opt_of_ok {α} {p : P α} {s a r} (h : p s = .ok a r) : opt p s = .ok (some a) r := by simp [opt, h]
+theorem opt_of_err {α} {p : P α} {s} (h : p s = .err) : opt p s = .ok none s := by simp [opt, h]
+theorem alt_cons_of_ok {α} {p : P α} {ps : List (P α)} {s a r} (h : p s = .ok a r) : alt (p :: ps) s = .ok a r := by
+  simp [alt, h]
+theorem alt_cons_of_err {α} {p : P α} {ps : List (P α)} {s} (h : p s = .err) : alt (p :: ps) s = alt ps s := by
+  simp [alt, h]
+theorem ret_apply {α} (a : α) (s : List Char) : ret a s = .ok a s := rfl
+
 /-! ### tag -/
 
 @[simp] theorem tag_append (t r : List Char) : tag t (t ++ r) = .ok t r := by
